@@ -24,7 +24,7 @@ def jobs(ctx):
         if g["name"] in ("p08", "m01"):
             kf, kfids = "minimize-merges-final-states-of-different-inputs", ["final-states-correspond", "same-verdict", "same-action-kind"]
         for inp in range(len(g["inputs"])):
-            j = Job(pair, pair, files, "VerifPairBisim", {"input": inp}, tag="%s bisim input=%d" % (pair, inp), cost=40, only_kf=kf, kf_ids=kfids, **kw)
+            j = Job(pair, pair, files, "VerifPairBisim", {"input": inp, "samerule": 0}, tag="%s bisim input=%d" % (pair, inp), cost=40, only_kf=kf, kf_ids=kfids, **kw)
             first = first or j
             out.append(j)
             T = len(g["terms"])
@@ -34,7 +34,7 @@ def jobs(ctx):
                 out.append(Job(pair, pair, files, "VerifPairRun", {"n": n, "input": inp, "conc": 1 if "opt" in oa else 0},
                                tag="%s run input=%d n=%d" % (pair, inp, n), cost=float(T) ** n + 5, only_kf=kf, kf_ids=kfids, **kw))
     if first:
-        out.append(Job(first.rel, first.pkgname, first.harness, "VerifPairBisim", {"input": 0}, tag="bisim twin", twin=True,
+        out.append(Job(first.rel, first.pkgname, first.harness, "VerifPairBisim", {"input": 0, "samerule": 0}, tag="bisim twin", twin=True,
                        load_dir=first.load_dir, import_path=first.import_path, extra_overlay=first.extra_overlay))
     return out
 
